@@ -80,6 +80,7 @@ func init() {
 			var b bytes.Buffer
 			doc.jsonText(&b)
 			text := b.String()
+			noteCase("C06", text)
 			p, err := pipeline.Parse(strings.NewReader(text))
 			if err != nil && !warning.Is(err) {
 				continue
